@@ -36,15 +36,15 @@ def run(ctx):
             if 'never logged exit' in n and sc['name'] in accepted:
                 ctx.violation({'check': 'C11', 'kind': 'connection_never_released', 'family': sc['family']}, 'scenario %s: %s' % (sc['name'], n), sc)
     # the timeout flags as wired by fingerproxy.go: read back from both servers and observed on real connections
-    wout = wiring.run_wiring(ctx, wiring.timeout_configs())[0]
-    w, cuts = wout['wiring'], wout['cuts_ms']
-    if (w.get('handshake'), w.get('idle'), w.get('read'), w.get('write')) != ('250ms', '300ms', '7s', '9s'):
-        ctx.violation({'check': 'C11', 'kind': 'flag_wiring'}, 'timeout flags 250ms/300ms/7s/9s arrive at the servers as %s' % w, wout)
-    for k, lim in (('stall', 250), ('h1_idle', 300), ('h2_idle', 300)):
-        v = cuts.get(k)
-        if v is None or v < 0 or v > 10 * lim + 1000:
-            ctx.violation({'check': 'C11', 'kind': 'not_cut_by_proxy', 'conn_kind': 'wired:' + k},
-                          'real wiring, flags -timeout-tls-handshake=250ms -timeout-http-idle=300ms: %s connection cut after %s ms (-1 = still open after 4 s)' % (k, v), wout)
+    for wout, how in zip(wiring.run_wiring(ctx, wiring.timeout_configs()), ('command line', 'environment')):
+        w, cuts = wout['wiring'], wout['cuts_ms']
+        if (w.get('handshake'), w.get('idle'), w.get('read'), w.get('write')) != ('250ms', '300ms', '7s', '9s'):
+            ctx.violation({'check': 'C11', 'kind': 'flag_wiring'}, 'timeout settings 250ms/300ms/7s/9s (%s) arrive at the servers as %s' % (how, w), wout)
+        for k, lim in (('stall', 250), ('h1_idle', 300), ('h2_idle', 300)):
+            v = cuts.get(k)
+            if v is None or v < 0 or v > 10 * lim + 1000:
+                ctx.violation({'check': 'C11', 'kind': 'not_cut_by_proxy', 'conn_kind': 'wired:' + k},
+                              'real wiring (%s), handshake timeout 250ms, idle timeout 300ms: %s connection cut after %s ms (-1 = still open after 4 s)' % (how, k, v), wout)
     cov = {'traces_validated_against_impl': len(accepted), 'real_flag_wiring': {'servers': w, 'cut_after_ms': cuts}, 'samples': [{'trace_prefix': lc.sample_trace(lines)}],
            'scenarios': [s['name'] for s in report if s['family'] not in ('panic', 'leakcheck')],
            'goroutine_census': [s for s in report if s['family'] == 'leakcheck'], 'events': len(lines),
